@@ -390,7 +390,7 @@ class DualVigilanceART(BaseART):
                 for w in self.base_module.W
             ]
         )
-        c_ = int(np.argmax(T))
+        c_ = self._first_max(T)
         return self.map[c_]
 
     def get_cluster_centers(self) -> List[np.ndarray]:
